@@ -20,6 +20,7 @@
  *   vector ops: insert:K  remove:K  find:K  contains:K  count  iterate  to_array
  *   map    ops: set:K:V  get:K  remove:K  has_key:K  has_value:V  count  get_keys  get_values
  *               get_pairs  iterate
+ *               set_pk:K:V                   -- set(objpair(K, "kk"), V): a key of class objpair WITH a value - the pair is the key, shown as K
  *               set_pv:K:A:B                 -- set(K, objpair(A, B)): a value whose order is coarser than its content, shown as AzB
  *               newpair                      -- spif_objpair_new() + del of an empty pair, prints '-'
  *               mutk:T  mutv:T  delk  delv   -- act on the CALLER's key / value object of the most
@@ -214,8 +215,11 @@ static void pt(spif_obj_t p)
         if (!q->key || !q->value || SPIF_OBJ_CLASS(q->key) != SPIF_CLASS(SPIF_STRCLASS_VAR(str)) ||
             SPIF_OBJ_CLASS(q->value) != SPIF_CLASS(SPIF_STRCLASS_VAR(str))) { putchar('?'); return; }
         fputs((const char *) SPIF_STR_STR(SPIF_STR(q->key)), stdout);
-        putchar('z');
-        fputs((const char *) SPIF_STR_STR(SPIF_STR(q->value)), stdout);
+        /* a pair <K, "kk"> is a map KEY of class objpair (set_pk): to the dictionary it is the key K (pairs compare by K) */
+        if (strcmp((const char *) SPIF_STR_STR(SPIF_STR(q->value)), "kk")) {
+            putchar('z');
+            fputs((const char *) SPIF_STR_STR(SPIF_STR(q->value)), stdout);
+        }
         if (p == ck || p == cv) putchar('!');
         return;
     }
@@ -546,7 +550,17 @@ static int do_map_op(spif_obj_t c, int na, char **a)
         SPIF_OBJ_DEL(ka); SPIF_OBJ_DEL(vb);
         pb(SPIF_MAP_SET(c, ck, cv));
     }
-    else if (IS("mutk") && na == 2) { if (ck) retext(ck, a[1]); putchar('-'); }
+    else if (IS("set_pk") && na == 3) {
+        /* the KEY is a pair <K, "kk"> and a value is given as well: not the pair form - the pair is the key (it compares as K) */
+        spif_obj_t ka, kb;
+        drop_caller();
+        ka = mk_str(a[1]); kb = mk_str("kk");
+        ck = SPIF_OBJ(spif_objpair_new_from_both(ka, kb));
+        SPIF_OBJ_DEL(ka); SPIF_OBJ_DEL(kb);
+        cv = mk_str(a[2]);
+        pb(SPIF_MAP_SET(c, ck, cv));
+    }
+    else if (IS("mutk") && na == 2) { if (ck) retext(SPIF_OBJ_IS_OBJPAIR(ck) ? SPIF_OBJPAIR(ck)->key : ck, a[1]); putchar('-'); }
     else if (IS("mutv") && na == 2) { if (cv) retext(SPIF_OBJ_IS_OBJPAIR(cv) ? SPIF_OBJPAIR(cv)->value : cv, a[1]); putchar('-'); }
     else if (IS("delk") && na == 1) { if (ck) { SPIF_OBJ_DEL(ck); ck = NULL; } putchar('-'); }
     else if (IS("delv") && na == 1) { if (cv) { SPIF_OBJ_DEL(cv); cv = NULL; } putchar('-'); }
